@@ -130,6 +130,8 @@ pub enum Ev
     Bystander(String),
     /// Runner hook events (hooks only): kind, system entity bits.
     Runner(u8, u64),
+    /// the system state of some actor was created (`FromWorld` of its `Local`)
+    StateCreated,
     /// (hook) a collection pass has received this entity from the channel and despawns it next
     GcTake(u64),
 }
